@@ -3,10 +3,12 @@
 from __future__ import annotations
 
 import logging
+import math
 from dataclasses import dataclass, field
 from typing import TYPE_CHECKING, cast
 
 import sympy
+import sympy.physics.units
 from wadler_lindig import pformat
 
 from mxlpy.meta.sympy_tools import (
@@ -198,6 +200,37 @@ def _parameter_names(args: list[str]) -> list[str]:
     return names
 
 
+def _number_literal(value: sympy.Expr) -> str:
+    """Python literal of a number.
+
+    SymPy prints 15 significant digits, which in general does not read back as the same
+    float (0.1 + 0.2 is printed as 0.3), so a float is written with its repr.
+    """
+    if (
+        isinstance(value, sympy.Float)
+        and math.isfinite(number := float(value))
+        and sympy.Float(number) == value
+    ):
+        return repr(number)
+    return sympy_to_inline_py(value)
+
+
+def _unit_literal(unit: sympy.Expr) -> str:
+    """Source of a unit, written in terms of sympy.physics.units.
+
+    Raises a ValueError for a unit that is not built from the units defined there, as
+    the generated file could not name it.
+    """
+    names: dict[sympy.Basic, sympy.Basic] = {}
+    for quantity in unit.atoms(sympy.physics.units.Quantity):
+        name = str(quantity.name)
+        if getattr(sympy.physics.units, name, None) != quantity:
+            msg = f"Unable to generate code for unit '{unit}'"
+            raise ValueError(msg)
+        names[quantity] = sympy.Symbol(f"sympy.physics.units.{name}")
+    return sympy_to_inline_py(unit.xreplace(names))
+
+
 def _codegen_variable(
     k: str, var: SymbolicVariable, functions: dict[str, tuple[sympy.Expr, list[str]]]
 ) -> str:
@@ -210,9 +243,9 @@ def _codegen_variable(
             initial_value=InitialAssignment(fn={fn_name}, args={init.args!r}),
         )"""
 
-    value = sympy_to_inline_py(init)
+    value = _number_literal(init)
     if (unit := var.unit) is not None:
-        return f"        .add_variable({k!r}, value={value}, unit={sympy_to_inline_py(unit)})"
+        return f"        .add_variable({k!r}, initial_value={value}, unit={_unit_literal(unit)})"
     return f"        .add_variable({k!r}, initial_value={value})"
 
 
@@ -228,9 +261,9 @@ def _codegen_parameter(
             value=InitialAssignment(fn={fn_name}, args={init.args!r}),
         )"""
 
-    value = sympy_to_inline_py(init)
+    value = _number_literal(init)
     if (unit := par.unit) is not None:
-        return f"        .add_parameter({k!r}, value={value}, unit={sympy_to_inline_py(unit)})"
+        return f"        .add_parameter({k!r}, value={value}, unit={_unit_literal(unit)})"
     return f"        .add_parameter({k!r}, value={value})"
 
 
@@ -289,7 +322,7 @@ def generate_mxlpy_code_from_symbolic_repr(
             elif isinstance(stoich, str):
                 stoichiometry.append(f""""{var}": {stoich!r}""")
             else:
-                stoichiometry.append(f""""{var}": {sympy_to_inline_py(stoich)}""")
+                stoichiometry.append(f""""{var}": {_number_literal(stoich)}""")
         reactions_source.append(
             f"""        .add_reaction(
                 "{k}",
@@ -306,6 +339,16 @@ def generate_mxlpy_code_from_symbolic_repr(
         sympy_to_python_fn(fn_name=name, args=_parameter_names(args), expr=expr)
         for name, (expr, args) in functions.items()
     )
+    # Modules the emitted code refers to
+    body = "\n".join(
+        [functions_source, *variable_source, *parameter_source, *reactions_source]
+    )
+    for module in ("math", "scipy.special", "sympy.physics.units"):
+        if f"{module}." in body and not any(
+            i.strip() in (f"import {module}", f"import {module.split('.')[0]}")
+            for i in imports
+        ):
+            imports = [*imports, f"import {module}"]
     source = [
         *imports,
         "from mxlpy import Model, Derived, InitialAssignment\n",
